@@ -1,6 +1,6 @@
 (* C01 — explicit tree-automata inclusion is exact under every algorithm selection. Statements only. *)
 From Coq Require Import List NArith Bool.
-From V Require Import Sem Prod Incl TrimDefs TrimProofs Lang InclDefs InclProofs AntichainUp DownIncl.
+From V Require Import Sem Prod Incl TrimDefs TrimProofs Lang InclDefs InclProofs AntichainUp DownIncl BinopDefs BinopProofs ReduceDefs ReduceProofs DownInclSim.
 
 (* the verdict function every selection must compute (prepare by trimming, then decide) is exact *)
 Theorem C01_exact : forall v A B, incl_model v A B = true <-> (forall t, accepts A t -> accepts B t).
@@ -43,7 +43,16 @@ Proof. exact down_partial_correct. Qed.
 Theorem C01_down_refines : forall A B fuel b, down_incl A B fuel = Some b -> b = incl_dec A B.
 Proof. exact down_incl_refines. Qed.
 
+(* (A) ... and WITH a simulation preorder: a goal (q, S) is answered at once when q is simulated by some s in S. If the relation
+   handed in is a downward simulation on the disjoint union of the prepared operands (what sanitize + UnionDisjointStates +
+   ComputeSimulation establish; the checker [is_down_simb] decides it), every answer is still the truth *)
+Theorem C01_down_sim_partial_correct : forall D A B fuel b,
+  disjointb (states A) (states B) = true -> is_down_simb (ta_app A B) D = true ->
+  downs_incl D A B fuel = Some b -> (b = true <-> forall t, accepts A t -> accepts B t).
+Proof. exact downs_incl_partial_correct_b. Qed.
+
 Print Assumptions C01_exact.
+Print Assumptions C01_down_sim_partial_correct.
 Print Assumptions C01_down_partial_correct.
 Print Assumptions C01_down_state_correct.
 Print Assumptions C01_down_refines.
